@@ -211,6 +211,12 @@ def evaluate_oracle(rp):
         return 'oracle raised %s: %s' % (type(e).__name__, str(e)[:200]), 'oracle:raises:' + tag, None
     if mask.tobytes() != b1 or ref.tobytes() != b2:
         return 'caller array modified', 'oracle:mutates', None
+    # the same aligner object serves further calls: other containers of the same values, and buffers refilled in place
+    # since an earlier call, give the same mapping
+    cv = core.container_variants(lambda m_, r_: al.calculate_mapping(m_, r_), [mask, ref], np.asarray(mapping),
+                                 lambda r_, e: np.array_equal(np.asarray(r_), e))
+    if cv:
+        return 'oracle(%s): %s' % (tag, cv), 'oracle:container:' + tag, None
     coq = None
     if np.asarray(mapping).shape == (K, F) and K <= 5:
         m, g = pc.MET[metric], core.cbool(algo == 'greedy')
